@@ -48,6 +48,10 @@ def tasks(tier, seed):
         for limit in ((2,) if tier == "quick" else (1, 2)):
             out.append({"key": f"A/{solver}/R1/limit{limit}/n4", "part": "A", "solver": solver, "R": 1, "limit": limit, "P": 1, "n": 4,
                         "gap": "exploitability"})
+    for i, t in enumerate(out):
+        if t["part"] == "A" and t["n"] == 3 and i % 2 == 1:
+            t["decoy"] = True
+            t["key"] += "/decoy"
     # seven players: 119 explorable coalitions - more than one machine word of ids / bit positions (quick: one run, strict superadditivity
     # keeps it to a single path)
     out.append({"key": "A/largest/R1/limit2/n7", "part": "A", "solver": "largest", "R": 1, "limit": 2, "P": 1, "n": 7, "gap": "l1_norm", "strict": True})
@@ -144,8 +148,29 @@ def _run_evaluate(pk, params, inp, P):
             "shape": [list(gaps.shape), list(actions.shape)], "draws_used": list(used), "pool": list(PoolStub.log)}
 
 
+def _decoy_evaluate(pk, params):
+    """ANOTHER evaluation (other hidden games, other solver, other repetition count) run first in the same process: whatever it leaves
+    behind at module level must not show in the run under test."""
+    n = params["n"]
+    install_pool_stub(pk)
+
+    def gen(nn, rng):
+        import numpy as np
+        g = pk.game.IncompleteCooperativeGame(nn)
+        g.set_values(np.array([float(F.popcount(S) ** 2 + (S % 2)) for S in range(2 ** nn)], dtype=object if pk.symbolic else float))
+        return g
+    pk.generators.GENERATORS["__decoy__"] = gen
+    inst = pk.run_model.ModelInstance(number_of_players=n, game_class="superadditive_cached", game_generator="__decoy__",
+                                      gap_function=params["gap"], run_steps_limit=2, seed=9, parallel_environments=1)
+    inst.game_generator_rng = _CounterRng()
+    solver = pk.solvers.SOLVERS["greedy" if params["solver"] == "largest" else "largest"](inst)
+    pk.evaluation.evaluate(solver.next_step, inst.get_env, 2, 2, inst.gap_function_callable, 1, solver.after_reset)
+
+
 def scenario(pk, params, inp):
     n, R, limit = params["n"], params["R"], params["limit"]
+    if params.get("decoy"):
+        _decoy_evaluate(pk, params)
     gapf = pk.run_model.GAP_FUNCTIONS[params["gap"]]
     comp = pk.bounds.BOUNDS["superadditive_cached"]
     out = {"run": _run_evaluate(pk, params, inp, params["P"])}
